@@ -4,7 +4,7 @@ disjointness / count properties evaluated independently on the tables the IMPLEM
 Used by checklib/props/c18.py (op kinds alloc, free, adds, wr)."""
 from collections import Counter
 
-KINDS = ("alloc", "free", "adds", "atab", "wr")
+KINDS = ("alloc", "free", "adds", "atab", "wr", "wb")
 FREE, EOC, FATSECT, DIFSECT = -1, -2, -3, -4
 
 RULE = ("(d) allocation layer: makeFreeSectors / freeSectors / addStream (through lib/comdoc/hooks_verif.go) on synthetic tables: "
@@ -20,7 +20,19 @@ RULE = ("(d) allocation layer: makeFreeSectors / freeSectors / addStream (throug
         "writeDirStream + allocSectorTables + counts + truncation; reopen = what relic's reader finds). Independently of the model the "
         "python predicate evaluates on the dumped tables: alloc_fresh, first fit, chain_of_addStream, addStream_frame (every "
         "pre-existing valid chain has the same sector list afterwards), free_then_alloc, pairwise disjointness of all live chains "
-        "and FAT/DIFAT sectors in every state, and at Close the header counts against the chain lengths.")
+        "and FAT/DIFAT sectors in every state, and at Close the header counts against the chain lengths. (f) byte level (`wb`): the Lean "
+        "model Relic.Model.CfbBytes (openFile; addFileB = data placement with zero padding, writeShortSector inside the mini-stream "
+        "container; deleteFileB; closeB = writeShortSAT, rebuildTree + writeDirStream, allocSectorTables, writeSAT, writeMSAT, header "
+        "rewrite, Truncate) predicts the BYTES of the file after every session from the input bytes; compared byte for byte with what "
+        "lib/comdoc left in the file: one history per shape of (b) and round, sector size 512 and 4096; mini stream ending at / one mini "
+        "sector before a sector boundary x additions of 1 / 64 / 65 / ss-64 / ss / ss+1 / 2ss+1 / 4095 bytes (container grows by 0, 1, "
+        "several sectors); 1 / 2 / 5 free mini sectors below the end of the mini stream x additions that fit, fit exactly, need more; a "
+        "sub-storage holding streams named like the signature streams; names of 31 / 32 units; sessions without a change; an existing "
+        "DIFAT sector; FAT without a free entry with the directory sector exactly full or not; DIFAT growth (109 full FAT sectors, "
+        "7 MiB); the repository's fixtures; malformed inputs (truncations at 9 offsets, trailing bytes, header fields, dangling / "
+        "negative links, name length fields) for the refusal / panic behaviour of openFile. On every session input and every predicted "
+        "output the driver also evaluates Spec.Cfb.validate and the executable invariant invB of the byte-level theorems (tag br): a "
+        "valid input must satisfy invB, a session on a valid input must leave a valid file.")
 
 
 def ints(s):
@@ -51,6 +63,9 @@ def ceil_div(a, b):
 
 def model_op(op, il):
     f = op.split(" ")
+    if f[1] == "wb":
+        # the byte-level model gets the same input bytes and steps (the tag is dropped)
+        return "C18 wbm " + " ".join(f[3:])
     if f[1] != "wr":
         return op
     r = il.split(" ")
@@ -334,6 +349,66 @@ def pred_wr(tokens, stats):
     return None
 
 
+def status_class(s):
+    """ok | err:<class>@s<i> | panic@s<i> | diverge@s<i> (panic sites differ between Go and the model: class only)"""
+    if s.startswith("panic"):
+        return "panic@" + s.rsplit("@", 1)[-1]
+    return s
+
+
+def judge_wb(op, il, mres, tag, stats):
+    """byte-level tie: the model's predicted file bytes after every session = the bytes lib/comdoc left in the file;
+    bridge: every input that Spec.Cfb.validate accepts opens into a state satisfying invB (hypothesis of the theorems),
+    and a session on a valid input leaves a valid file"""
+    f = op.split(" ")
+    br = kv(tag).get("br", "").split(",") if tag else []
+    pre = []
+    for n, x in enumerate(br):
+        stats["wb-bridge:" + x] += 1
+        if x == "vx":
+            pre.append(("counterexample", "Relic.Props.C18.inv_of_valid_full", "invB (openFile b) = true for a file Spec.Cfb.validate accepts",
+                        "invB false on the input of session %d" % n,
+                        "a valid compound file does not satisfy the invariant the byte-level theorems assume"))
+        if n > 0 and br[n - 1].startswith("v") and x.startswith("n"):
+            pre.append(("counterexample", "Relic.Props.C18.add_preserves_valid_full", "Spec.Cfb.validate accepts the file after session %d" % (n - 1),
+                        "rejected (the predicted bytes are the bytes lib/comdoc wrote when the tie holds)",
+                        "a session on a valid compound file left an invalid one"))
+    tagname = f[2].split("/")[0]
+    if not mres.startswith("ok "):
+        return [("broken-tie", "Relic.CfbB.session", "an answer", mres[:200], "driver failed on this op")], False
+    m = mres.split(" ")[1:]
+    r = il.split(" ")
+    sm, si = status_class(m[0]), status_class(r[0])
+    stats["wb:" + si.split("@")[0].split(":_")[0]] += 1
+    stats["wb-shape:" + tagname] += 1
+    out = list(pre)
+    if sm != si:
+        out.append(("broken-tie", "Relic.CfbB.session (openFile / addFileB / deleteFileB / closeB)", "status " + sm, "status " + si,
+                    "byte-level writer model and lib/comdoc disagree on the outcome of a session"))
+        return out, False
+    hm, hi = m[1:], r[1:]
+    if len(hm) != len(hi):
+        out.append(("broken-tie", "Relic.CfbB.session", "%d sessions completed" % len(hm), "%d" % len(hi), "different number of sessions completed"))
+        return out, False
+    ss = 512
+    try:
+        ss = 1 << int(f[3][60:62], 16)
+    except ValueError:
+        pass
+    for n, (a, b) in enumerate(zip(hm, hi)):
+        stats["wb-sessions-compared"] += 1
+        if a == b:
+            continue
+        k = next((j for j in range(0, min(len(a), len(b)), 2) if a[j:j + 2] != b[j:j + 2]), min(len(a), len(b))) // 2
+        where = "header byte %d" % k if k < 512 else "sector %d + %d" % (k // ss - 1, k % ss)
+        out.append(("broken-tie", "Relic.CfbB.session (openFile / addFileB / deleteFileB / closeB)",
+                    "file of %d bytes, at %s: %s" % (len(a) // 2, where, a[2 * k:2 * k + 32]),
+                    "file of %d bytes, at %s: %s" % (len(b) // 2, where, b[2 * k:2 * k + 32]),
+                    "the bytes lib/comdoc wrote differ from the byte-level model's prediction after session %d (first difference at offset %d)" % (n, k)))
+        break
+    return out, si == "ok" and not out and len(hi) > 0
+
+
 def judge(op, il, mres, tag, stats):
     """-> list of (kind, theorem, expected, observed, note); updates stats; returns (problems, nontrivial)"""
     f = op.split(" ")
@@ -341,6 +416,8 @@ def judge(op, il, mres, tag, stats):
     out = []
     if il.startswith(("crash", "not-run")):
         return [("broken-tie", "Relic.CfbW (harness)", "an answer", il[:200], "harness crashed on this op")], False
+    if k == "wb":
+        return judge_wb(op, il, mres, tag, stats)
     if k == "wr":
         r = il.split(" ")
         if mres == "bad-op" and model_op(op, il) == "C18 skip":
